@@ -532,3 +532,39 @@ M("C06-array-bounds-ignored", "C06", "src/cppparser/cppArrayType.cxx",
 M("C06-benign-extra-field", "C06", "src/cppparser/cppConstType.cxx",
   "  return _wrapped_around < ot->_wrapped_around;", "  if (_wrapped_around == ot->_wrapped_around) {\n    return false;\n  }\n  return _wrapped_around < ot->_wrapped_around;",
   benign=True)
+
+# ---------------------------------------------------------------- C09
+M("C09-ifndef-not-nested", "C09", "src/cppparser/cppPreprocessor.cxx",
+  "      if (command == \"if\" || command == \"ifdef\" || command == \"ifndef\") {\n        // Hmm, a nested if block.", "      if (command == \"if\" || command == \"ifdef\") {\n        // Hmm, a nested if block.",
+  expect="R09.1|skip_false_if_block")
+M("C09-ifdef-no-alternatives", "C09", "src/cppparser/cppPreprocessor.cxx",
+  "  if (!is_manifest_defined(args)) {\n    // The macro is undefined.  Skip stuff.\n    skip_false_if_block(true);", "  if (!is_manifest_defined(args)) {\n    // The macro is undefined.  Skip stuff.\n    skip_false_if_block(false);",
+  expect="R09.1|handle_ifdef_directive|polarity")
+M("C09-ifdef-polarity", "C09", "src/cppparser/cppPreprocessor.cxx",
+  "  if (!is_manifest_defined(args)) {\n    // The macro is undefined.  Skip stuff.", "  if (is_manifest_defined(args)) {\n    // The macro is undefined.  Skip stuff.",
+  expect="R09.1|handle_ifdef_directive|polarity")
+M("C09-if-polarity", "C09", "src/cppparser/cppPreprocessor.cxx",
+  "  if (expression_result) {\n    // The expression result is true.  We continue.\n    return;\n  }", "  if (!expression_result) {\n    // The expression result is true.  We continue.\n    return;\n  }",
+  expect="R09.1|handle_if_directive|polarity")
+M("C09-else-in-taken-group-continues", "C09", "src/cppparser/cppPreprocessor.cxx",
+  "  } else if (command == \"else\" || command == \"elif\" || command == \"elifdef\" || command == \"elifndef\") {", "  } else if (command == \"elif\" || command == \"elifdef\" || command == \"elifndef\") {",
+  expect="R09.1|process_directive")
+M("C09-elif-at-any-level", "C09", "src/cppparser/cppPreprocessor.cxx",
+  "      } else if (command == \"elif\") {\n        if (level == 0 && consider_elifs) {", "      } else if (command == \"elif\") {\n        if (consider_elifs) {",
+  expect="R09.1|skip_false_if_block|elif")
+M("C09-elifdef-uses-ifndef", "C09", "src/cppparser/cppPreprocessor.cxx",
+  "          _save_comments = true;\n          handle_ifdef_directive(args, loc);\n          return;", "          _save_comments = true;\n          handle_ifndef_directive(args, loc);\n          return;",
+  expect="R09.1|skip_false_if_block|elifdef")
+M("C09-endif-never-unnests", "C09", "src/cppparser/cppPreprocessor.cxx",
+  "          _save_comments = true;\n          return;\n        }\n        level--;", "          _save_comments = true;\n          return;\n        }",
+  expect="R09.1|skip_false_if_block|endif")
+M("C09-define-while-skipping", "C09", "src/cppparser/cppPreprocessor.cxx",
+  "        // Hmm, a nested if block.  Even more to skip.\n        level++;", "        // Hmm, a nested if block.  Even more to skip.\n        level++;\n      } else if (command == \"define\") {\n        handle_define_directive(args, loc);",
+  expect="R09.")
+M("C09-comments-not-restored", "C09", "src/cppparser/cppPreprocessor.cxx",
+  "        if (level == 0) {\n          // Here's the end!\n          _save_comments = true;\n          return;", "        if (level == 0) {\n          // Here's the end!\n          return;",
+  expect="R09.2|skip_false_if_block|comment-saving-paired")
+M("C09-benign-reorder-chain", "C09", "src/cppparser/cppPreprocessor.cxx",
+  "  } else if (command == \"ifdef\") {\n    handle_ifdef_directive(args, loc);\n  } else if (command == \"ifndef\") {\n    handle_ifndef_directive(args, loc);",
+  "  } else if (command == \"ifndef\") {\n    handle_ifndef_directive(args, loc);\n  } else if (command == \"ifdef\") {\n    handle_ifdef_directive(args, loc);",
+  benign=True)
